@@ -257,7 +257,7 @@ def run(ctx):
                     del sys.modules[k]
     # a load written inside the arguments of a keep: it is evaluated before the kept call. After the producer: the kept call
     # follows the producer's edits; as an argument of the very call that produces the path: read before produced, rejected
-    for ci, order in enumerate(["after", "self"]):
+    for ci, order in enumerate(["after", "self", "self_kw", "self_kw_mixed"]):
         base = tempfile.mkdtemp(prefix="ddsverif_c09a_")
         pkg = "c9a_%d_%d" % (os.getpid(), ci)
         try:
@@ -266,12 +266,16 @@ def run(ctx):
             ref.call(cmd="refpaths", paths={})
             for step, expr in enumerate(["'a1'", "'a2'", "'a2'", "'a1'"]):
                 body = {"after": "    a = dds.keep('/g/p', prod)\n    b = dds.keep('/g/r', wrap, dds.load('/g/p'))\n    c = dds.keep('/g/k', wrap, x=dds.load('/g/p'))\n",
-                        "self": "    a = None\n    b = dds.keep('/g/p', wrap, dds.load('/g/p'))\n    c = None\n"}[order]
-                if order == "self" and step == 0:
+                        "self": "    a = None\n    b = dds.keep('/g/p', wrap, dds.load('/g/p'))\n    c = None\n",
+                        # ... the same read written as a keyword argument of the producing call (alone, and after a positional one)
+                        "self_kw": "    a = None\n    b = dds.keep('/g/p', wrap, x=dds.load('/g/p'))\n    c = None\n",
+                        "self_kw_mixed": "    a = None\n    b = dds.keep('/g/p', wrap2, 'lit', y=dds.load('/g/p'))\n    c = None\n"}[order]
+                if order.startswith("self") and step == 0:
                     body = "    a = dds.keep('/g/p', wrap, 'seed')\n    b = None\n    c = None\n"
                 src = ("import dds\nfrom ddsverif_rt import log, term\n\n"
                        "def prod():\n    log('prod')\n    return term('prod', %s)\n\n"
                        "def wrap(x):\n    log('wrap')\n    return term('wrap', x)\n\n"
+                       "def wrap2(x, y=None):\n    log('wrap2')\n    return term('wrap2', x, y)\n\n"
                        "def f0():\n%s    return term('f0', a, b, c)\n" % (expr, body))
                 os.makedirs(os.path.join(base, pkg), exist_ok=True)
                 open(os.path.join(base, pkg, "__init__.py"), "w").close()
@@ -280,7 +284,7 @@ def run(ctx):
                 real.load_world(base, pkg + ".main", None, accept=pkg)
                 ref.call(cmd="world", dir=base, module=pkg + ".main", extmod=None)
                 entry = {"kind": "eval", "fun": "f0"}
-                ill = order == "self" and step > 0
+                ill = order.startswith("self") and step > 0
                 rr = None if ill else ref.call(cmd="run", entry=entry)
                 r = real.run(entry)
                 res.evaluations += 1
